@@ -1,29 +1,69 @@
-(* Known finding K1 as a theorem about the models: for a switch_s whose outer cell is updated, in the same
-   transaction, by an event derived from the switch's own output (legal for the semantics: the outer cell is
-   read as of the start of the transaction), the node graph the implementation builds is cyclic, and the
-   propagation engine and the specification DISAGREE: the specification updates the outer cell, the engine
-   never reaches it. The refinement theorems (Props/Refine.v) therefore carry the hypothesis `acyclic_dem`
-   (no cycle through the static dependencies `acyclic` - and the demands of switch_c), which excludes exactly
-   this class. *)
+(* The former known finding K1 (switch_s whose outer cell is updated from the switch's own output) is inside
+   the proved fragment after the repair.
+
+   For a switch_s whose outer cell is updated, in the same transaction, by an event derived from the switch's
+   own output (legal for the semantics: the outer cell is read as of the start of the transaction), the
+   implementation used to build a cyclic node graph (the inner node depended on the outer node) and lost the
+   outer cell's update.  After the repair of /repo/src/impl_/cell.rs `switch_s` the inner node only keeps the
+   outer node alive without depending on it; accordingly the node of `DSwitchS c` in Model/Net.v depends on
+   the stream the outer cell held at the start of the transaction and on nothing else.  The program `cy_st`
+   (outer cell 3 = hold (2 = map of the switch 4's output to a stream reference), 4 = switch_s 3, currently
+   on the sink 0) is then ACYCLIC, satisfies every hypothesis of the refinement theorems (Props/Refine.v),
+   and the propagation engine and the specification AGREE on it: both update the outer cell.
+   Statements only; proofs in Proofs/NetRefine.v. *)
 From Coq Require Import List ZArith Arith.
 Import ListNotations.
 From Sodium Require Import Sodium Engine Net NetRefine.
 
-Example K1_engine_differs_from_spec :
+(* the hypotheses of the refinement theorems hold of it; in particular the graph is acyclic *)
+Example K1_static_ok : static_ok cy_st.
+Proof. exact cy_static_ok. Qed.
+Print Assumptions K1_static_ok.
+
+Example K1_wired_ok : wired_ok cy_st [(0, VInt 5%Z)].
+Proof. exact cy_wired_ok. Qed.
+Print Assumptions K1_wired_ok.
+
+Example K1_is_acyclic : acyclic_dem cy_st [(0, VInt 5%Z)].
+Proof. exact cy_acyclic. Qed.
+Print Assumptions K1_is_acyclic.
+
+(* the switch 4 depends on the sink 0 only; the engine fires exactly the specification's values, the update
+   `VRef 1` of the outer cell 3 included; the update log *)
+Example K1_engine_agrees_with_spec :
   static_ok cy_st /\ switch_targets_ok cy_st = true /\
-  map (ndeps cy_st) [2; 3; 4] = [[4]; [2]; [0; 3]] /\
+  map (ndeps cy_st) [2; 3; 4] = [[4]; [2]; [0]] /\
   map (fun kd : nat * def => if is_cell (snd kd) then upd cy_st [(0, VInt 5%Z)] (F cy_st) (fst kd)
                              else occ cy_st [(0, VInt 5%Z)] (F cy_st) (fst kd)) cy_defs =
   map (@EV (option val)) [Some (VInt 5%Z); Some (VInt 6%Z); Some (VRef 1); Some (VRef 1); Some (VInt 5%Z)] /\
   option_map (fun r => (firstn 5 (fst r), snd r)) (net_txn cy_st [(0, VInt 5%Z)]) =
-  Some ([Some (VInt 5%Z); Some (VInt 6%Z); None; None; Some (VInt 5%Z)], [1; 4]).
-Proof. exact cy_disagree. Qed.
-Print Assumptions K1_engine_differs_from_spec.
+  Some ([Some (VInt 5%Z); Some (VInt 6%Z); Some (VRef 1); Some (VRef 1); Some (VInt 5%Z)], [1; 4; 2; 3]).
+Proof. exact cy_agree. Qed.
+Print Assumptions K1_engine_agrees_with_spec.
 
-Example K1_is_the_cyclic_class : ~ acyclic cy_st.
-Proof. exact cy_not_acyclic. Qed.
-Print Assumptions K1_is_the_cyclic_class.
+(* the refinement theorem (Refine_txn, i.e. net_txn_refines) applied to it *)
+Example K1_inside_the_proved_fragment :
+  exists fires lg,
+    net_txn cy_st [(0, VInt 5%Z)] = Some (fires, lg) /\
+    length fires = gsize cy_st /\
+    (forall s d, alookup (defs cy_st) s = Some d -> is_cell d = false ->
+                 occ cy_st [(0, VInt 5%Z)] (F cy_st) s = EV (fire_of fires s)) /\
+    (forall c d, alookup (defs cy_st) c = Some d -> is_cell d = true ->
+                 upd cy_st [(0, VInt 5%Z)] (F cy_st) c = EV (fire_of fires c)) /\
+    updates_once_after_deps cy_st fires lg.
+Proof. exact cy_refines. Qed.
+Print Assumptions K1_inside_the_proved_fragment.
 
-Example K1_excluded_by_refinement_hypothesis : forall inj, ~ acyclic_dem cy_st inj.
-Proof. intros inj H. exact (cy_not_acyclic (acyclic_dem_acyclic cy_st inj H)). Qed.
-Print Assumptions K1_excluded_by_refinement_hypothesis.
+(* the commit re-wires the switch to stream 1; the next transaction (send 7) is wired and acyclic again
+   (checked with the rank 0 < 1 < 4 < 2 < 3), the switch fires 7 + 1 and the outer cell is updated back to a
+   reference to stream 0 *)
+Example K1_next_transaction :
+  match net_txn cy_st [(0, VInt 5%Z)] with
+  | Some (f1, _) =>
+    let st1 := net_commit cy_st f1 in
+    (ndeps st1 4, wired_okb (fun n => nth n [0; 1; 3; 4; 2] 0) st1 [(0, VInt 7%Z)],
+     option_map (fun r => firstn 5 (fst r)) (net_txn st1 [(0, VInt 7%Z)]))
+  | None => ([], false, None)
+  end = ([1], true, Some [Some (VInt 7%Z); Some (VInt 8%Z); Some (VRef 0); Some (VRef 0); Some (VInt 8%Z)]).
+Proof. exact cy_next. Qed.
+Print Assumptions K1_next_transaction.
